@@ -47,6 +47,16 @@ def splitWsOld (e0 e1 : Nat) : Nat → List Lit → List Piece
       let inc := l.te - e0
       ⟨e0 + c, l.te, (e0 + c : Nat) + off l, (l.te : Nat) + off l, c, c + inc⟩ :: splitWsOld e0 e1 (c + inc) rest
 
+/-- an element that may *not* be split (anything but whitespace) spanning several literal slices: the start of its source
+    slice is stashed at the first slice it spills over and must survive the later ones; the token is yielded at the slice
+    that contains its end. Returns the token's source slice. -/
+def spanSrc (e0 e1 : Nat) : Option Int → List Lit → Option (Int × Int)
+  | _, [] => none
+  | st, l :: rest =>
+    if e1 ≤ l.te then some (st.getD ((e0 : Nat) + off l), (e1 : Nat) + off l)
+    else if e0 == l.te then spanSrc e0 e1 st rest
+    else spanSrc e0 e1 (some (st.getD ((e0 : Nat) + off l))) rest
+
 /-- pieces tile `[pos, e1)` in the templated file and `[c, n)` in the element's text, piece by piece of equal length -/
 def Tiles (e1 n : Nat) : Nat → Nat → List Piece → Prop
   | pos, c, [] => pos = e1 ∧ c = n
